@@ -246,5 +246,13 @@ func GenerateRoutes(
 		return err
 	}
 
+	// WriteFile applies the mode only when it creates the file - an existing routes file keeps its old one
+	if len(args.OutputFilePerms) > 0 {
+		if err = os.Chmod(args.OutputPath, getOutputFileMod(args.OutputFilePerms)); err != nil {
+			logger.Fatal("Could not apply permissions '%v' to output file '%s' - %v", args.OutputFilePerms, args.OutputPath, err)
+			return err
+		}
+	}
+
 	return nil
 }
